@@ -37,6 +37,7 @@ inductive Op
   | removeDims (s : Nat) (vars : List Nat) | removeHigher (s nd : Nat)
   | unconstrain (s : Nat) (vars : List Nat)
   | closure (s : Nat)
+  | expand (s v m : Nat) | fold (s : Nat) (vars : List Nat) (dest : Nat) | mapDims (s : Nat) (f : List (Option Nat))
   | intersection (s t : Nat) | hull (s t : Nat) | timeElapse (s t : Nat) | concat (s t : Nat)
 deriving Repr, Inhabited
 
@@ -66,6 +67,12 @@ def Op.admissible (w : World) : Op → Bool
   | .removeDims s vars => vars.all (· < (w s).dim) && vars.Pairwise (· < ·)
   | .removeHigher s nd => nd ≤ (w s).dim
   | .unconstrain s vars => vars.all (· < (w s).dim) && vars.Pairwise (· < ·)
+  | .expand s v _ => v < (w s).dim
+  | .fold s vars dest => vars.all (· < (w s).dim) && vars.Pairwise (· < ·) && dest < (w s).dim && !vars.contains dest
+  | .mapDims s f =>
+    -- a permutation of the dimensions, or nothing mapped
+    f.length == (w s).dim &&
+      (f.all (· == none) || (List.range (w s).dim).all fun k => (f.filter (· == some k)).length == 1)
   | _ => true
 
 /-- one public call -/
@@ -95,6 +102,9 @@ def World.step (w : World) (op : Op) : World × Obs :=
   | .removeHigher s nd => (w.set s ((w s).removeHigherSpaceDimensions nd), .none)
   | .unconstrain s vars => (w.set s ((w s).unconstrain vars), .none)
   | .closure s => (w.set s (w s).topologicalClosureAssign, .none)
+  | .expand s v m => (w.set s ((w s).expandSpaceDimension v m), .none)
+  | .fold s vars dest => (w.set s ((w s).foldSpaceDimensions vars dest), .none)
+  | .mapDims s f => (w.set s ((w s).mapSpaceDimensions f), .none)
   | .intersection s t => let r := (w s).intersectionAssign (w t); ((w.set s r.1).set t r.2, .none)
   | .hull s t => let r := (w s).polyHullAssign (w t); ((w.set s r.1).set t r.2, .none)
   | .timeElapse s t => let r := (w s).timeElapseAssign (w t); ((w.set s r.1).set t r.2, .none)
@@ -113,7 +123,8 @@ def Op.slots : Op → List Nat
   | .isEmpty s | .constraints s | .generators s | .minimizedConstraints s | .minimizedGenerators s
   | .relationWithGen s _ _ | .bounds s _ _ | .maxMin s _ _ | .addConstraint s _ | .refineWithConstraint s _
   | .addGenerator s _ _ | .affineImage s _ _ _ | .affinePreimage s _ _ _ | .generalizedAffineImage s _ _ _ _
-  | .embed s _ | .project s _ | .removeDims s _ | .removeHigher s _ | .unconstrain s _ | .closure s => [s]
+  | .embed s _ | .project s _ | .removeDims s _ | .removeHigher s _ | .unconstrain s _ | .closure s
+  | .expand s _ _ | .fold s _ _ | .mapDims s _ => [s]
   | .contains s t | .equals s t | .intersection s t | .hull s t | .timeElapse s t | .concat s t | .copy s t => [s, t]
 
 end PPLV.PolyFull
